@@ -62,7 +62,7 @@ def draw_cfg(st):
         cfg["traced"] = ["_output.py", "_action.py"]
         cfg["max_ops"] = min(cfg["max_ops"], 20)
     n = 1 + st.choose(5, "n-dests")
-    cfg["dests"] = [{"mask": MASKS[st.choose(len(MASKS), "mask")], "exc": st.choose(5, "exc-kind")}
+    cfg["dests"] = [{"mask": MASKS[st.choose(len(MASKS), "mask")], "exc": st.choose(6, "exc-kind")}
                     for _ in range(n)]
     return cfg
 
